@@ -242,11 +242,12 @@ def main(argv):
                        'failed': r.get('failed'), 'detail': r.get('detail', '')}, open(rp, 'w'), indent=1)
             env = dict(os.environ)
             env['PYTHONPATH'] = VERIF + ':' + REPO
+            hang = str(r.get('failed') or '').startswith('does not terminate')
             try:
-                p = subprocess.run([REPLAY_PY, os.path.join(VERIF, 'lib', 'runner.py'), '--replay', rp], capture_output=True, text=True, timeout=600, env=env)
+                p = subprocess.run([REPLAY_PY, os.path.join(VERIF, 'lib', 'runner.py'), '--replay', rp], capture_output=True, text=True, timeout=300 if hang else 600, env=env)
                 rc, out = p.returncode, p.stdout + p.stderr
             except subprocess.TimeoutExpired:
-                rc, out = 2, 'replay timed out'
+                rc, out = (1, 'REPRODUCED: the replay on the real code does not terminate either (killed after 300 s)') if hang else (2, 'replay timed out')
             if rc == 0 and o.kind == 'symx':
                 # the witness does not reproduce in a fresh process: state kept by the code under test may have leaked from an earlier
                 # path of the exploration. Explore this case again with every path in its own process and replay what that finds.
